@@ -2,6 +2,7 @@ import PoaVerif.Lemmas.FramePoa
 import PoaVerif.Props.C15
 import PoaVerif.Model.Spec
 import PoaVerif.Witness.D9b
+import PoaVerif.Lemmas.Quiet
 /-
   C10 — pending queue integrity and uniqueness of validator identities.
 -/
@@ -176,5 +177,26 @@ theorem c10_partial_supply (s s' : App) (sg : Signer) (c : CreateArgs)
                       [⟨c.op, key, 0, 1, c.lens.map (fun (n : Nat) => (n : Int)) ++ [c.rate, c.maxRate, c.maxChange]⟩] } (by simpa using hb)
                     rw [this]
                     exact ⟨rfl, rfl, rfl⟩
+
+/-! ### uniqueness of identities along whole histories (the power-adjustment envelope) -/
+
+/-- **C10, identities, along whole histories.**  From every well-formed genesis, along every history whose blocks
+    are quiet (`Lemmas/Quiet.lean`: applications, removals of applications, admissions, power changes without the
+    D1/D3/D7 triggers, parameter updates, all votes present, no evidence), in the state after InitChain and after
+    every block: no two validator records share an operator address or a consensus key, no two pending applications
+    do, and no pending application shares either with a validator record.  Nothing is assumed about the states in
+    between: the statement is an induction over the blocks with the invariant `G`. -/
+theorem c10_identities_partial (g : Genesis) (hw : g.wf = true) (bs : List Block) (hq : QuietHistory g bs) :
+    ∃ first steps, run genEnv g bs = some (first, steps, RunEnd.done) ∧
+      ∀ st ∈ first :: steps,
+        (∀ v1 ∈ st.app.vals, ∀ v2 ∈ st.app.vals, (v1.op = v2.op ∨ v1.key = v2.key) → v1 = v2) ∧
+        (st.app.pending.map (·.op)).Nodup ∧ (st.app.pending.map (·.key)).Nodup ∧
+        (∀ p ∈ st.app.pending, ∀ v ∈ st.app.vals, p.op ≠ v.op ∧ p.key ≠ v.key) := by
+  obtain ⟨first, steps, h1, _, _, hg, h5⟩ := quiet_history g hw bs hq
+  refine ⟨first, steps, h1, ?_⟩
+  intro st hst
+  rcases List.mem_cons.mp hst with e | e
+  · rw [e]; exact G_identities _ _ hg
+  · exact G_identities _ _ (h5 st e).2
 
 end PoaVerif.Props.C10
